@@ -181,6 +181,46 @@ pub fn reachable_code(shape: &Shape) -> std::collections::BTreeSet<String> {
   seen
 }
 
+/// Everything reachable from the roots and configured imports through every
+/// recorded resolution (code, type, types dependency, source map) and
+/// redirects.
+pub fn reachable_all(shape: &Shape) -> std::collections::BTreeSet<String> {
+  let mut seen = std::collections::BTreeSet::new();
+  let mut work: Vec<String> = shape.roots.clone();
+  for (_, deps) in &shape.imports {
+    for d in deps {
+      work.extend(d.code.ok().map(|s| s.to_string()));
+      work.extend(d.typ.ok().map(|s| s.to_string()));
+    }
+  }
+  while let Some(s) = work.pop() {
+    if !seen.insert(s.clone()) {
+      continue;
+    }
+    match shape.slots.get(&s) {
+      Some(SlotShape::Module(m)) => {
+        for d in &m.deps {
+          work.extend(d.code.ok().map(|s| s.to_string()));
+          work.extend(d.typ.ok().map(|s| s.to_string()));
+        }
+        if let Some((_, r)) = &m.types_dep {
+          work.extend(r.ok().map(|s| s.to_string()));
+        }
+        if let Some(r) = &m.source_map_dep {
+          work.extend(r.ok().map(|s| s.to_string()));
+        }
+      }
+      Some(SlotShape::Err { .. }) => {}
+      None => {
+        if let Some(t) = shape.redirects.get(&s) {
+          work.push(t.clone());
+        }
+      }
+    }
+  }
+  seen
+}
+
 fn gen_cfg() -> GenCfg {
   let mut cfg = GenCfg::basic();
   cfg.mixed_attrs = false;
